@@ -72,49 +72,49 @@ func fmtVariations() map[string][]shapeT {
 		return []shapeT{{"string", a}, {"list1", L{a}}, {"list2", L{a, b}}, {"empty-list", L{}}}
 	}
 	v := map[string][]shapeT{
-		"/tasks/t1/command":      strOrList("echo one", "echo two"),
-		"/tasks/t2/before":       strOrList("echo b1", "echo b2"),
-		"/tasks/t2/after":        strOrList("echo a1", "echo a2"),
-		"/tasks/t2/timeout":      {{"1s", "1s"}, {"1500ms", "1500ms"}, {"2m", "2m"}, {"int-ns", 2000000000}, {"1h30m", "1h30m"}},
-		"/tasks/t2/allow_failure": {{"true", true}, {"false", false}},
-		"/tasks/t2/interactive":  {{"true", true}, {"false", false}},
-		"/tasks/t2/dir":          {{"dot", "."}, {"tmpl", "{{.Root}}"}},
-		"/tasks/t2/context":      {{"cx", "cx"}},
-		"/tasks/t1/description":  {{"string", "words here"}, {"int", 5}, {"float", 1.5}, {"bool", true}},
-		"/tasks/t1/name":         {{"string", "renamed"}, {"int", 7}},
-		"/tasks/t1/condition":    {{"true", "true"}, {"false", "false"}},
-		"/tasks/t1/exportas":     {{"string", "OUT1"}},
-		"/tasks/t1/env":          {{"strings", M{"E": "x", "F": "y"}}, {"int", M{"E": 5}}, {"float", M{"E": 1.5}}, {"bool", M{"E": true}}, {"empty", M{}}},
-		"/tasks/t1/variables":    {{"strings", M{"tv": "x"}}, {"int", M{"tv": 5}}, {"float", M{"tv": 2.5}}, {"bool", M{"tv": false}}},
-		"/tasks/t1/variations":   {{"two", L{M{"V": "a"}, M{"V": "b"}}}, {"one", L{M{"V": "a"}}}, {"int", L{M{"V": 1}}}, {"empty", L{}}},
-		"/tasks/t1/env_file":     {{"file", "t1.env"}},
-		"/contexts/cx/up":        strOrList("echo u1 >> trace", "echo u2 >> trace"),
-		"/contexts/cx/down":      strOrList("echo d1 >> trace", "echo d2 >> trace"),
-		"/contexts/cx/before":    strOrList("echo cb1 >> trace", "echo cb2 >> trace"),
-		"/contexts/cx/after":     strOrList("echo ca1 >> trace", "echo ca2 >> trace"),
-		"/contexts/cx/env":       {{"strings", M{"CE": "2", "CF": "3"}}, {"int", M{"CE": 2}}},
-		"/contexts/cx/variables": {{"strings", M{"cv": "1"}}, {"int", M{"cv": 1}}},
-		"/contexts/cx/dir":       {{"dot", "."}, {"abs", "/tmp"}},
-		"/contexts/cx/quote":     {{"single", "'"}, {"double", "\""}},
-		"/contexts/cx/executable": {{"sh", M{"bin": "/bin/sh", "args": L{"-c"}}}, {"noargs", M{"bin": "/bin/echo"}}, {"args2", M{"bin": "/bin/sh", "args": L{"-e", "-c"}}}},
-		"/pipelines/p1/1/depends_on": {{"string", "s1"}, {"list1", L{"s1"}}, {"empty-list", L{}}},
-		"/pipelines/p1/2/depends_on": {{"list2", L{"s1", "s2"}}, {"list2-rev", L{"s2", "s1"}}, {"string", "s2"}},
-		"/pipelines/p1/0/env":       {{"strings", M{"SE": "2"}}, {"int", M{"SE": 2}}, {"bool", M{"SE": true}}},
-		"/pipelines/p1/0/variables": {{"strings", M{"sv": "2"}}, {"int", M{"sv": 2}}},
-		"/pipelines/p1/0/dir":       {{"dot", "."}, {"abs", "/tmp"}},
-		"/pipelines/p1/0/condition": {{"true", "true"}, {"false", "false"}},
+		"/tasks/t1/command":             strOrList("echo one", "echo two"),
+		"/tasks/t2/before":              strOrList("echo b1", "echo b2"),
+		"/tasks/t2/after":               strOrList("echo a1", "echo a2"),
+		"/tasks/t2/timeout":             {{"1s", "1s"}, {"1500ms", "1500ms"}, {"2m", "2m"}, {"int-ns", 2000000000}, {"1h30m", "1h30m"}},
+		"/tasks/t2/allow_failure":       {{"true", true}, {"false", false}},
+		"/tasks/t2/interactive":         {{"true", true}, {"false", false}},
+		"/tasks/t2/dir":                 {{"dot", "."}, {"tmpl", "{{.Root}}"}},
+		"/tasks/t2/context":             {{"cx", "cx"}},
+		"/tasks/t1/description":         {{"string", "words here"}, {"int", 5}, {"float", 1.5}, {"bool", true}},
+		"/tasks/t1/name":                {{"string", "renamed"}, {"int", 7}},
+		"/tasks/t1/condition":           {{"true", "true"}, {"false", "false"}},
+		"/tasks/t1/exportas":            {{"string", "OUT1"}},
+		"/tasks/t1/env":                 {{"strings", M{"E": "x", "F": "y"}}, {"int", M{"E": 5}}, {"float", M{"E": 1.5}}, {"bool", M{"E": true}}, {"empty", M{}}},
+		"/tasks/t1/variables":           {{"strings", M{"tv": "x"}}, {"int", M{"tv": 5}}, {"float", M{"tv": 2.5}}, {"bool", M{"tv": false}}},
+		"/tasks/t1/variations":          {{"two", L{M{"V": "a"}, M{"V": "b"}}}, {"one", L{M{"V": "a"}}}, {"int", L{M{"V": 1}}}, {"empty", L{}}},
+		"/tasks/t1/env_file":            {{"file", "t1.env"}},
+		"/contexts/cx/up":               strOrList("echo u1 >> trace", "echo u2 >> trace"),
+		"/contexts/cx/down":             strOrList("echo d1 >> trace", "echo d2 >> trace"),
+		"/contexts/cx/before":           strOrList("echo cb1 >> trace", "echo cb2 >> trace"),
+		"/contexts/cx/after":            strOrList("echo ca1 >> trace", "echo ca2 >> trace"),
+		"/contexts/cx/env":              {{"strings", M{"CE": "2", "CF": "3"}}, {"int", M{"CE": 2}}},
+		"/contexts/cx/variables":        {{"strings", M{"cv": "1"}}, {"int", M{"cv": 1}}},
+		"/contexts/cx/dir":              {{"dot", "."}, {"abs", "/tmp"}},
+		"/contexts/cx/quote":            {{"single", "'"}, {"double", "\""}},
+		"/contexts/cx/executable":       {{"sh", M{"bin": "/bin/sh", "args": L{"-c"}}}, {"noargs", M{"bin": "/bin/echo"}}, {"args2", M{"bin": "/bin/sh", "args": L{"-e", "-c"}}}},
+		"/pipelines/p1/1/depends_on":    {{"string", "s1"}, {"list1", L{"s1"}}, {"empty-list", L{}}},
+		"/pipelines/p1/2/depends_on":    {{"list2", L{"s1", "s2"}}, {"list2-rev", L{"s2", "s1"}}, {"string", "s2"}},
+		"/pipelines/p1/0/env":           {{"strings", M{"SE": "2"}}, {"int", M{"SE": 2}}, {"bool", M{"SE": true}}},
+		"/pipelines/p1/0/variables":     {{"strings", M{"sv": "2"}}, {"int", M{"sv": 2}}},
+		"/pipelines/p1/0/dir":           {{"dot", "."}, {"abs", "/tmp"}},
+		"/pipelines/p1/0/condition":     {{"true", "true"}, {"false", "false"}},
 		"/pipelines/p1/0/allow_failure": {{"true", true}, {"false", false}},
-		"/pipelines/p1/2/name":      {{"string", "s3"}, {"int", 3}, {"float", 1.5}},
-		"/watchers/w1/watch":     strOrList("w*.txt", "w*.md"),
-		"/watchers/w1/exclude":   strOrList("wx*", "wy*"),
-		"/watchers/w1/events":    strOrList("write", "remove"),
-		"/watchers/w1/variables": {{"strings", M{"wv": "2"}}, {"int", M{"wv": 2}}},
-		"/variables":             {{"strings", M{"gv": "x", "gw": "y"}}, {"int", M{"gv": 5}}, {"float", M{"gv": 1.5}}, {"bool", M{"gv": true}}},
-		"/debug":                 {{"true", true}, {"false", false}},
-		"/summary":               {{"true", true}, {"false", false}},
-		"/dryrun":                {{"true", true}, {"false", false}},
-		"/output":                {{"raw", "raw"}, {"prefixed", "prefixed"}},
-		"/import":                {{"list1", L{"inc/a.yaml"}}, {"list2", L{"inc/a.yaml", "inc/b.yaml"}}, {"empty", L{}}, {"shared-lists-yaml", L{"inc/shared.yaml"}}, {"shared-lists-json", L{"inc/shared.json"}}, {"shared-lists-toml", L{"inc/shared.toml"}}},
+		"/pipelines/p1/2/name":          {{"string", "s3"}, {"int", 3}, {"float", 1.5}},
+		"/watchers/w1/watch":            strOrList("w*.txt", "w*.md"),
+		"/watchers/w1/exclude":          strOrList("wx*", "wy*"),
+		"/watchers/w1/events":           strOrList("write", "remove"),
+		"/watchers/w1/variables":        {{"strings", M{"wv": "2"}}, {"int", M{"wv": 2}}},
+		"/variables":                    {{"strings", M{"gv": "x", "gw": "y"}}, {"int", M{"gv": 5}}, {"float", M{"gv": 1.5}}, {"bool", M{"gv": true}}},
+		"/debug":                        {{"true", true}, {"false", false}},
+		"/summary":                      {{"true", true}, {"false", false}},
+		"/dryrun":                       {{"true", true}, {"false", false}},
+		"/output":                       {{"raw", "raw"}, {"prefixed", "prefixed"}},
+		"/import":                       {{"list1", L{"inc/a.yaml"}}, {"list2", L{"inc/a.yaml", "inc/b.yaml"}}, {"empty", L{}}, {"shared-lists-yaml", L{"inc/shared.yaml"}}, {"shared-lists-json", L{"inc/shared.json"}}, {"shared-lists-toml", L{"inc/shared.toml"}}},
 	}
 	return v
 }
@@ -238,10 +238,10 @@ func normalizeOut(s, dir string) string {
 func c16One(x *ctx, c fmtCase) bool {
 	tree := c.tree()
 	type one struct {
-		ext   string
-		dump  string
-		err   string
-		outs  map[string]string
+		ext  string
+		dump string
+		err  string
+		outs map[string]string
 	}
 	var got []one
 	aux := map[string]string{"inc/a.yaml": "tasks:\n  inca:\n    command: echo a\n", "inc/b.yaml": "tasks:\n  incb:\n    command: echo b\n", "t1.env": "EF=1\n",
